@@ -271,6 +271,34 @@ func RuleK15(r *Report, c *Codec) {
 	r.Check(bad == "" && n > 0, "K15", "codec.marshal:marshaler", c.P.Pos(c.M.Fn.Pos()), fmt.Sprintf("%d successful field encodings, all copied", n), bad)
 }
 
+// K17: a field decoder called on a non-nil receiver never returns (nil, nil): the codec stores the result of a
+// value field without a nil test (reflect.Indirect of a nil pointer is the zero Value, and Set panics on it).
+func RuleK17(r *Report, c *Codec) {
+	r.Rule("K17", "UnmarshalUT0311L0x called on a non-nil receiver returns a non-nil value whenever it returns no error (the codec stores it into a value field unconditionally)", 5)
+	for _, kf := range c.Kinds {
+		if kf.UnmarshalFn == nil {
+			continue
+		}
+		bad := ""
+		n := 0
+		for _, pa := range kf.UPaths {
+			if pa.Outcome != "return" || len(pa.Results) != 2 || errNilness(pa, pa.Results[1]) != 1 {
+				continue
+			}
+			if v, ok := pa.State.Bools["isnil(d)"]; ok && v {
+				continue // nil receiver: the pointer-field protocol
+			}
+			n++
+			if pa.Results[0].IsNilConst() {
+				bad = "returns (nil, nil) on a non-nil receiver when [" + cut(pa.State.Describe(), 160) + "]: decoding a value field of this type panics in the codec"
+			}
+		}
+		if n > 0 {
+			r.Check(bad == "", "K17", kf.Name, c.P.Pos(kf.UnmarshalFn.Pos()), fmt.Sprintf("%d success paths", n), bad)
+		}
+	}
+}
+
 // K16: the value-tag grammar. The pattern constant the codec matches `value:` tags with is tabulated over every
 // one-byte literal in its decimal and hexadecimal spellings (an analysis of a constant of the program: the
 // codec is not run).
@@ -491,6 +519,7 @@ func RuleK5(r *Report, c *Codec) {
 	type site struct {
 		examined, propagated bool
 		seenErrPath          bool
+		swallowed            string
 		pos                  string
 		kind                 string
 	}
@@ -520,7 +549,8 @@ func RuleK5(r *Report, c *Codec) {
 				s = &site{pos: c.P.Pos(e.Pos), kind: cp.Kind}
 				sites[key] = s
 			}
-			if v, ok := cp.Path.State.Bools["isnil("+errTerm+")"]; ok {
+			v, ok := cp.Path.State.Bools["isnil("+errTerm+")"]
+			if ok {
 				s.examined = true
 				if !v {
 					s.seenErrPath = true
@@ -528,6 +558,10 @@ func RuleK5(r *Report, c *Codec) {
 						s.propagated = true
 					}
 				}
+			}
+			// a path on which the decoder does not fail although the nested error is, or may be, non-nil
+			if cp.ErrNil != 0 && cp.Path.Outcome == "return" && (!ok || !v) && s.swallowed == "" {
+				s.swallowed = cut(cp.Path.State.Describe(), 200)
 			}
 		}
 	}
@@ -544,7 +578,14 @@ func RuleK5(r *Report, c *Codec) {
 		case s.kind == "unmarshaler-pointer":
 			r.OK("K5", k, s.pos, "pointer field: error examined, field stays nil (accepted idiom)", true)
 		default:
-			r.Check(s.propagated, "K5", k, s.pos, "propagated", "error is examined but the decoder still returns success")
+			switch {
+			case !s.propagated:
+				r.Bad("K5", k, s.pos, "error is examined but the decoder still returns success")
+			case s.swallowed != "":
+				r.Bad("K5", k, s.pos, "the decoder can return success although this nested decode failed: ["+s.swallowed+"]")
+			default:
+				r.OK("K5", k, s.pos, "propagated on every path", true)
+			}
 		}
 	}
 }
